@@ -442,6 +442,20 @@ def run(eng: Engine, ck: Check):
         return rows
 
     def abstract_run(fn, reader, opt, cond, ctrl, present):
+        def is_controlling(e: ast.AST) -> bool:
+            """the value of the field named by metadata['if_true'|'if_false']: field_map[..metadata[..]] on the reader side, a local
+            bound to getattr(obj, ..metadata[..]) (possibly wrapped in bool()) on the writer side"""
+            if isinstance(e, ast.Call) and call_name(e) == 'bool' and len(e.args) == 1:
+                return is_controlling(e.args[0])
+            if isinstance(e, ast.Subscript) and unparse(e.value) in fn.params and mentions_attr(e.slice, 'metadata'):
+                return True
+            if isinstance(e, ast.Call) and call_name(e) == 'getattr' and len(e.args) >= 2 and mentions_attr(e.args[1], 'metadata'):
+                return True
+            if isinstance(e, ast.Name):
+                defs = [n_.value for n_ in walk_local(fn.node) if isinstance(n_, ast.Assign) and any(isinstance(t_, ast.Name) and t_.id == e.id for t_ in n_.targets)]
+                return bool(defs) and all(is_controlling(d_) for d_ in defs)
+            return False
+
         def truth(e: ast.AST) -> bool:
             s = unparse(e)
             if isinstance(e, ast.UnaryOp) and isinstance(e.op, ast.Not):
@@ -460,9 +474,10 @@ def run(eng: Engine, ck: Check):
                 return {'optional': opt, 'if_true': cond == 'if_true', 'if_false': cond == 'if_false'}[k]
             if isinstance(e, ast.Compare) and isinstance(e.ops[0], ast.Is) and is_none_const(e.comparators[0]):
                 return not present
-            if isinstance(e, ast.Compare) and isinstance(e.ops[0], ast.Lt) and 'len(message)' in s:
-                return present
-            if 'field_map[' in s or s in ('other_value', 'bool(other_value)'):
+            if isinstance(e, ast.Compare) and isinstance(e.ops[0], ast.Lt) and any(
+                    isinstance(x_, ast.Call) and call_name(x_) == 'len' and x_.args and unparse(x_.args[0]) in fn.params for x_ in ast.walk(e)):
+                return present          # `pos < len(message)`: unparsed bytes left
+            if is_controlling(e):
                 return ctrl
             raise AnalysisError(f'R-C01-DRIVER: construct `{s}` in {fn.qualname} is outside the decision-table fragment')
 
